@@ -130,6 +130,36 @@ func TestMakeSeeds(t *testing.T) {
 	}
 }
 
+// TestMakeSuspects writes the scenario that confirms / refutes the suspicions about WITHDRAW_REWARD
+// (DESIGN C08/C13 R). None of them violates C13's statement; the replay prints what happened.
+func TestMakeSuspects(t *testing.T) {
+	dir := os.Getenv("VERIF_MAKE_SEEDS")
+	if dir == "" {
+		t.Skip("VERIF_MAKE_SEEDS not set")
+	}
+	_ = os.MkdirAll(dir, 0o755)
+	p := baseParams("c13-withdraw-suspects")
+	p.RewardYearShares = []string{"70000000000000000000000000"}
+	p.RewardEstSecs = 10
+	u := sim.BuildGenesis(p).U
+	fee := txgen.DefaultFee()
+	v := u.Vals
+	c := &Case{Params: p, Profile: "hand:withdraw-suspects"}
+	blk(c, 5)
+	blk(c, 5)
+	// validator 3 unstakes everything: its record is deleted two blocks later
+	blk(c, 5, txgen.Unstake(v[3].Key.Addr, v[3].Stake.Addr, txgen.Amt("OLT", big.NewInt(p.ValPower[3])), fee, "u1", v[3].Stake, v[3].Key))
+	for i := 0; i < 5; i++ {
+		blk(c, 5)
+	}
+	// a stranger withdraws validator 3's matured rewards; validator 0 withdraws -3 and 2^64+2 OLT
+	blk(c, 5, txgen.WithdrawReward(v[3].Key.Addr, u.Users[5].Addr, txgen.Amt("OLT", big.NewInt(2)), fee, "w1", u.Users[5]))
+	blk(c, 5, txgen.WithdrawReward(v[0].Key.Addr, v[0].Stake.Addr, txgen.Amt("OLT", big.NewInt(-3)), fee, "w2", v[0].Stake))
+	blk(c, 5, txgen.WithdrawReward(v[0].Key.Addr, v[0].Stake.Addr, txgen.Amt("OLT", new(big.Int).Add(new(big.Int).Lsh(big.NewInt(1), 64), big.NewInt(2))), fee, "w3", v[0].Stake))
+	blk(c, 5)
+	write(t, dir, "seed-withdraw-suspects.json", c)
+}
+
 func write(t *testing.T, dir, name string, c *Case) {
 	cb, _ := json.Marshal(c)
 	f := run.Failure{Property: "C13", Test: "TestReplay", Oracle: "seed", Message: "hand-built scenario", Sig: "C13/seed", Case: cb}
